@@ -61,6 +61,7 @@ type UpConnRec struct {
 	End       *simnet.End
 	Script    *UpScript
 	Health    bool // connection made by a health check (closed at once by the prober)
+	InWrite   bool // the upstream script is inside a Write right now (blocked if the run is over)
 }
 
 // ProxyUps manages the simulated upstream servers of a proxy world.
@@ -115,7 +116,14 @@ func (p *ProxyUps) serve(addr string, c net.Conn, end *simnet.End, idx int) {
 				total := len(rec.Received)
 				ulk()
 				if echo {
-					if _, werr := c.Write(buf[:n]); werr != nil {
+					lk()
+					rec.InWrite = true
+					ulk()
+					_, werr := c.Write(buf[:n])
+					lk()
+					rec.InWrite = false
+					ulk()
+					if werr != nil {
 						lk()
 						rec.SendErr = werr
 						ulk()
@@ -159,9 +167,13 @@ func (p *ProxyUps) serve(addr string, c net.Conn, end *simnet.End, idx int) {
 			for i := range b {
 				b[i] = UpByte(sc.Tag, sc.Key, off+i)
 			}
+			lk()
+			rec.InWrite = true
+			ulk()
 			n, err := c.Write(b)
 			off += n
 			lk()
+			rec.InWrite = false
 			rec.Sent = off
 			ulk()
 			if err != nil {
